@@ -443,21 +443,23 @@ def c01_9(ctx):
 def c01_10(ctx):
     r = ctx.repo
     f = r.fn('_dictable:dictable.do')
-    st = [s for s in ast.walk(f.node) if isinstance(s, ast.Assign) and N(s.targets[0]) == 'res[key]']
+    rets0 = returns_of(f.node)
+    res = U(rets0[-1].value) if rets0 and isinstance(rets0[-1].value, ast.Name) else 'res'      # the running result (whatever it is called)
+    st = [s for s in ast.walk(f.node) if isinstance(s, ast.Assign) and N(s.targets[0]) == '%s[key]' % res]
     ctx.count(1, f.where())
     if not st or not isinstance(st[0].value, ast.ListComp):
         ctx.fail(f, f.node, 'do no longer rebuilds each column with a comprehension over the rows')
     else:
         comp = st[0].value
         it = N(comp.generators[0].iter)
-        if it != 'res' or len(comp.generators) != 1:
-            ctx.fail(f, st[0], 'the transformed column is computed from `%s`: rows must come from the running result `res`, so that a transform whose extra arguments name columns changed earlier in the same call sees the new values' % U(comp.generators[0].iter),
+        if it != res or len(comp.generators) != 1:
+            ctx.fail(f, st[0], 'the transformed column is computed from `%s`: rows must come from the running result, so that a transform whose extra arguments name columns changed earlier in the same call sees the new values' % U(comp.generators[0].iter),
                      witness="d.do(lambda value, a: value + a, 'a', 'b')")
         row = U(comp.generators[0].target)
         if N(comp.elt) != NS('f(%s[key], **{k: v for k, v in %s.items() if k in args[1:]})' % (row, row)):
             ctx.fail(f, st[0], 'the transform is not applied as f(row[key], **the other cells it names): %s' % U(comp.elt)[:100])
     for n in body_nodes(f.node):
-        if isinstance(n, ast.Assign) and isinstance(n.value, ast.Call) and N(n.value) in ('list(self)', 'list(res)') and n.lineno < (st[0].lineno if st else 10**9):
+        if isinstance(n, ast.Assign) and isinstance(n.value, ast.Call) and N(n.value) in ('list(self)', 'list(%s)' % res) and n.lineno < (st[0].lineno if st else 10**9):
             ctx.fail(f, n, 'rows are materialised once before the column loop (`%s`): later transforms read stale cells' % U(n))
     g = r.fn('_dict:Dict.do')
     st = [s for s in ast.walk(g.node) if isinstance(s, ast.Assign) and N(s.targets[0]) == 'res[key]']
